@@ -194,7 +194,15 @@ def specOp (st : SState) (line : String) : Option (SState × String) :=
   | ["spec.start", sid, pidB, pidA, freshB, freshA] =>
     match st.ake sid, hexNat freshB, hexNat freshA with
     | some a, some fB, some fA =>
-      some ((st.putParty pidB (startBob K a fB)).putParty pidA (startAlice K a fA), "ok")
+      -- a party that was in a private conversation already carries its MAC keys to reveal over
+      let carry (pid : String) (fresh : Party) : Party :=
+        match st.party pid with
+        | some old =>
+          let o := old.ourKeyId
+          let t := old.theirKeyId
+          Party.carryOver old fresh (old.recvMac K o t ++ old.recvMac K o (t - 1) ++ old.recvMac K (o - 1) t ++ old.recvMac K (o - 1) (t - 1))
+        | none => fresh
+      some ((st.putParty pidB (carry pidB (startBob K a fB))).putParty pidA (carry pidA (startAlice K a fA)), "ok")
     | _, _, _ => bad
   | ["spec.send", pid, flags, plain, old, frag] =>
     match num flags, unhx plain, revealArg old, fragArg frag with
